@@ -19,7 +19,8 @@ type Goroutine struct {
 	in     *Interp
 	ready  func() bool // nil: runnable
 	why    string
-	vc     VC
+	vc     VC // strong happens-before: go, channels, atomics, quiescence
+	vcFull VC // ... plus mutex unlock -> lock (used for byte buffers handed over through a pool)
 	locks  map[*Cell]bool
 }
 
@@ -33,6 +34,7 @@ type Sched struct {
 	activity int64
 	budget   int  // remaining voluntary context switches
 	explore  bool // forced switches choose among runnable goroutines by decision
+	reverse  bool // deterministic policy: pick the runnable goroutine with the next LOWER id
 }
 
 type killSignal struct{}
@@ -60,6 +62,11 @@ func (s *Sched) spawn(parent *Interp, body func(g *Interp), name string) {
 		}
 		g.vc = parent.g.vc.copy().tick(g.id)
 		parent.g.vc = parent.g.vc.tick(parent.g.id)
+		if parent.g.vcFull == nil {
+			parent.g.vcFull = VC{}
+		}
+		g.vcFull = parent.g.vcFull.copy().tick(g.id)
+		parent.g.vcFull = parent.g.vcFull.tick(parent.g.id)
 	}
 	s.gs = append(s.gs, g)
 	s.activity++
@@ -108,6 +115,9 @@ func (s *Sched) pick(from *Goroutine) *Goroutine {
 	n := len(s.gs)
 	for k := 1; k <= n; k++ {
 		g := s.gs[(from.id+k)%n]
+		if s.reverse {
+			g = s.gs[((from.id-k)%n+n)%n]
+		}
 		if s.runnable(g) {
 			cands = append(cands, g)
 		}
@@ -295,6 +305,11 @@ func (s *Sched) push(in *Interp, ch *ChanObj, v Value) {
 		}
 		ch.clocks = append(ch.clocks, in.g.vc.copy())
 		in.g.vc = in.g.vc.tick(in.g.id)
+		if in.g.vcFull == nil {
+			in.g.vcFull = VC{}
+		}
+		ch.clocksFull = append(ch.clocksFull, in.g.vcFull.copy())
+		in.g.vcFull = in.g.vcFull.tick(in.g.id)
 	}
 }
 
@@ -308,6 +323,10 @@ func (s *Sched) pop(in *Interp, ch *ChanObj) Value {
 	if s.p.mon != nil && len(ch.clocks) > 0 {
 		in.g.vc = in.g.vc.join(ch.clocks[0]).tick(in.g.id)
 		ch.clocks = ch.clocks[1:]
+		if len(ch.clocksFull) > 0 {
+			in.g.vcFull = in.g.vcFull.join(ch.clocksFull[0]).tick(in.g.id)
+			ch.clocksFull = ch.clocksFull[1:]
+		}
 	}
 	return v
 }
@@ -421,10 +440,13 @@ func (s *Sched) lock(in *Interp, m *Cell) {
 		s.p.mon.lockOrder(in, m)
 		// unlock -> lock is a happens-before edge (publication through a mutex is not a race)
 		if c, ok := s.p.mon.mutexVC[m]; ok {
-			if in.g.vc == nil {
-				in.g.vc = VC{}
+			if s.p.mon.mutexHB {
+				if in.g.vc == nil {
+					in.g.vc = VC{}
+				}
+				in.g.vc = in.g.vc.join(c)
 			}
-			in.g.vc = in.g.vc.join(c)
+			in.g.vcFull = in.g.vcFull.join(c)
 		}
 	}
 }
@@ -439,7 +461,11 @@ func (s *Sched) unlock(in *Interp, m *Cell) {
 		if in.g.vc == nil {
 			in.g.vc = VC{}
 		}
-		s.p.mon.mutexVC[m] = in.g.vc.copy()
+		if in.g.vcFull == nil {
+			in.g.vcFull = VC{}
+		}
+		s.p.mon.mutexVC[m] = in.g.vcFull.copy()
+		in.g.vcFull = in.g.vcFull.tick(in.g.id)
 		in.g.vc = in.g.vc.tick(in.g.id)
 	}
 	delete(in.g.locks, m)
